@@ -229,6 +229,33 @@ func c12Spaces(c *fw.Ctx) {
 				}
 			}
 		})
+	allSizesRule := "every message size s from 12 to 65535"
+	c.Space("stream/all-sizes", allSizesRule+": frame(s) followed by a 12-octet frame, cut after 1, 2, 3 octets, one octet before the end of the first frame, at its end and one octet into the second frame (six 2-segment splits, read entry point rotating with s), plus Conn.Write of s octets (one write, prefix = s); one case per 64 sizes; non-trivial: all", true,
+		func(emit func(func(*fw.R))) {
+			var sizes []int
+			for s := 12; s <= 65535; s++ {
+				sizes = append(sizes, s)
+			}
+			for i := 0; i < len(sizes); i += 64 {
+				chunk := sizes[i:min(i+64, len(sizes))]
+				emit(func(r *fw.R) {
+					r.Nontrivial()
+					b := c12Body(12, 2)
+					for _, s := range chunk {
+						a := c12Body(s, 1)
+						for _, cut := range []int{1, 2, 3, s + 1, s + 2, s + 3} {
+							c12ReadTwo(r, a, b, []int{cut}, nil, s%3)
+						}
+						sc := &segConn{}
+						if k, err := (&dns.Conn{Conn: sc}).Write(a); err != nil || sc.writes != 1 || !bytes.Equal(sc.written, c12Frame(a)) {
+							r.Fail("write/stream", "Write of %d octets: n=%d err=%v, %d octets in %d writes on the wire (prefix %x)", s, k, err, len(sc.written), sc.writes, sc.written[:min(2, len(sc.written))])
+						}
+					}
+					r.Count("sizes", int64(len(chunk)))
+				})
+			}
+		})
+
 	c.Space("stream/eof", "one framed message of size s ∈ {12,13,255,256,257,513,4096} with the stream ending (EOF, and a timeout error) at every offset before the end: an error and no message; at the end: the message; non-trivial: EOF inside the frame", true,
 		func(emit func(func(*fw.R))) {
 			for _, s := range []int{12, 13, 255, 256, 257, 513, 4096} {
